@@ -131,6 +131,21 @@ pub fn generate_bigram_info(
         }
     }
 
+    // The ids must be 0..len without a gap, and the loops below take the number of entries as
+    // the largest id plus one: that only holds when the reserved id 0 (BOS/EOS) is defined.
+    if !left_features.is_empty() && !left_features.contains_key(&0) {
+        return Err(VibratoError::invalid_format(
+            "right_id_def_rdr",
+            "feature ID 0 is undefined",
+        ));
+    }
+    if !right_features.is_empty() && !right_features.contains_key(&0) {
+        return Err(VibratoError::invalid_format(
+            "left_id_def_rdr",
+            "feature ID 0 is undefined",
+        ));
+    }
+
     let mut bigram_right_wtr = BufWriter::new(bigram_right_wtr);
     for id in 1..left_features.len() {
         write!(&mut bigram_right_wtr, "{id}\t")?;
